@@ -5,6 +5,8 @@
 //!   P  E, then parser::stream on the bytes and Stream::write of the parsed stream
 //!   F  encode_fixed_size_frame on the first block + Frame::write
 //!   X  E, but the stream is written into a user sink that fails half way (three times, at different calls)
+//!   Z  no encoding: every thread-local scratch storage of the thread is overwritten with arbitrary contents
+//!      (hook poison_scratch, seeded by the body); what matters is that the calls after it are unaffected
 //! Output: `<id> seq=<h1,h2,..> fresh=<h1,h2,..>`: FNV-1a of the bytes of each call when the calls run
 //! in order on one thread, and when each call runs alone on a thread of its own.
 use crate::rng::Rng;
@@ -43,6 +45,7 @@ pub fn gen(seed: u64, n: usize, out: &mut String) {
             for _ in 0..k {
                 c.win = Some(a.to_bits());
                 let kind = match r.below(8) { 0..=4 => "E", 5 => "X", _ => "F" };
+                if r.chance(1, 3) { calls.push(format!("Z {} {} {} {} {} {}", c.encode(), rate, ch, bps, bs, sig::fmt_samples(&s[0..s.len().min(8 * ch)]))); }
                 calls.push(format!("{} {} {} {} {} {} {}", kind, c.encode(), rate, ch, bps, bs, sig::fmt_samples(&s)));
                 a = (a0 + *r.pick(&[1e-6f32, 4e-6, 7.6e-6, 1.2e-5, 1.5e-5, 3.0e-6])).min(1.0);
                 if r.chance(1, 4) { a = a0; }
@@ -63,6 +66,7 @@ pub fn gen(seed: u64, n: usize, out: &mut String) {
             if c.win.is_none() && r.chance(1, 2) { c.win = Some(f32::to_bits(*r.pick(&[0.0f32, 1e-6, 0.1, 0.25, 0.4, 0.5, 0.99999, 1.0]))); }
             if let Some(a) = c.win { if f32::from_bits(a) <= 1.0 && f32::from_bits(a) >= 0.0 { prev_alpha = Some(a); } else { c.win = prev_alpha; } }
             let kind = match r.below(10) { 0 | 1 | 2 | 3 => "E", 4 => "M", 5 => "P", 6 | 7 => "X", _ => "F" };
+            if r.chance(1, 3) { calls.push(format!("Z {} {} {} {} {} {}", c.encode(), rate, ch, bps, bs, sig::fmt_samples(&s[0..s.len().min(8 * ch)]))); }
             calls.push(format!("{} {} {} {} {} {} {}", kind, c.encode(), rate, ch, bps, bs, sig::fmt_samples(&s)));
         }
         writeln!(out, "HIST h{} {}", i, calls.join(" ;; ")).unwrap();
@@ -86,6 +90,12 @@ fn failing_write(c: &Case) -> String {
 
 fn do_call(kind: &str, c: &Case) -> String {
     if kind == "X" { return failing_write(c); }
+    if kind == "Z" {
+        let mut h: u64 = 0x9E3779B97F4A7C15 ^ (c.samples.len() as u64) ^ ((c.bs as u64) << 20) ^ ((c.rate as u64) << 40);
+        for v in c.samples.iter().take(64) { h = (h ^ (*v as u32 as u64)).wrapping_mul(0x100000001b3); }
+        flacenc::verif::poison_scratch(h);
+        return "poison".to_string();
+    }
     let mut c2 = Case { cfg: c.cfg.clone(), rate: c.rate, ch: c.ch, bps: c.bps, bs: c.bs, samples: c.samples.clone() };
     match kind {
         "F" if !c.samples.is_empty() => {
@@ -138,6 +148,7 @@ pub fn run(id: &str, rest: &str) -> String {
 pub fn augment(line: &str, rest: &str) -> String {
     let (head, _) = line.split_at(line.len() - rest.len());
     let bodies: Vec<String> = split_calls(rest).into_iter().map(|(k, b)| {
+        if k == "Z" { return format!("{} {} |", k, b); }
         let b2 = b.clone();
         let t = std::thread::spawn(move || std::panic::catch_unwind(|| s_enc::oracle_tokens(&s_enc::parse(&b2)))).join();
         match t { Ok(Ok(t)) => format!("{} {} |{}", k, b, t), _ => format!("{} {} | ORACLE-PANIC", k, b) }
